@@ -77,7 +77,7 @@ func syncLogs(repo *chain.Repository, ldb *logdb.LogDB) error {
 func buildStream(seed int64, blocks int) *world {
 	rng := rand.New(rand.NewSource(seed))
 	E := uint32(3)
-	net := sim.NewNet(sim.Options{Validators: 4, Nodes: 1, EpochLength: E, PoS: rng.Intn(3) == 0, ExtraAccts: 3})
+	net := sim.NewNet(sim.Options{Validators: 4, Nodes: 1, EpochLength: E, PoS: rng.Intn(3) == 0, ExtraAccts: 3, RealRun: true})
 	w := &world{net: net, path: map[thor.Bytes32]pathT{}, nState: map[thor.Bytes32]int{}, rng: rng, txWhere: map[thor.Bytes32][]thor.Bytes32{}}
 	g := net.B0.Header().ID()
 	w.path[g] = pathT{}
@@ -375,7 +375,7 @@ func main() {
 		if err := nodecheck.LogDBMatchesChain(r.node.Repo, ldb); err != nil {
 			fmt.Println("HARNESS-NOTE reference log db differs from chain:", err)
 		}
-		r.node.Node.VerifClose()
+		r.node.Close()
 	}
 
 	// ---- configuration facts for the trace spec
@@ -484,7 +484,7 @@ func runCut(w *world, ref *reference, k, second int, siblingFirst bool) (cutResu
 		pass++
 		r.kv.CrashAt(-1)
 		r.evs = append(r.evs, trace.Ev{"e": "Crash", "logs": r.logsHead()})
-		r.node.Node.VerifClose()
+		r.node.Close()
 		if err := r.open(false); err != nil {
 			res.RestartErr = err.Error()
 			r.evs = append(r.evs, trace.Ev{"e": "RestartFailed", "err": err.Error()})
@@ -590,7 +590,7 @@ func runCut(w *world, ref *reference, k, second int, siblingFirst bool) (cutResu
 			res.TxLookup = "at the end: " + err.Error()
 		}
 	}
-	r.node.Node.VerifClose()
+	r.node.Close()
 	res.Events = len(r.evs)
 	res.Phases = r.crashPhases
 	return res, r.evs
